@@ -70,7 +70,7 @@ Qed.
 
 Ltac rule_start :=
   let Hn := fresh "Hn" in let m := fresh "m" in let s := fresh "s" in let j := fresh "j" in let f := fresh "f" in
-  split; [intros Hn [m s j f]; cbn in Hn; split_andb; cbn [build subst npc pm insub injoin infmt mapped node_builder] | try exact I].
+  split; [intros Hn [m s j f]; cbn in Hn; split_andb; cbn [build enter keeps_insub subst npc pm insub injoin infmt mapped node_builder] | try exact I].
 
 Theorem string_rule_all : forall e, RuleP' e.
 Proof.
@@ -79,34 +79,34 @@ Proof.
   - intros; rule_start; reflexivity.
   - intros; rule_start; reflexivity.
   - (* PStr *) intros r raw parsed _. rule_start.
-    destruct (j && negb f) eqn:Ejf; cbn [build npc pm insub injoin infmt mapped node_builder]; rewrite ?Ejf; [reflexivity|].
+    destruct (j && negb f) eqn:Ejf; cbn [build enter keeps_insub npc pm insub injoin infmt mapped node_builder]; rewrite ?Ejf; [reflexivity|].
     destruct m as [|[|]]; cbn; rewrite ?Ejf; try reflexivity.
     destruct parsed; cbn; rewrite ?Ejf; reflexivity.
   - (* PParsed *) intros p _. split; [intros Hn; discriminate|exact I].
-  - (* PAttribute *) intros v a [IH _]. rule_start. rewrite (IH ltac:(assumption) (mkCtx m s j f)). reflexivity.
-  - (* PBinOp *) intros l o r [IHl _] [IHr _]. rule_start. rewrite (IHl ltac:(assumption) (mkCtx m s j f)), (IHr ltac:(assumption) (mkCtx m s j f)). reflexivity.
+  - (* PAttribute *) intros v a [IH _]. rule_start. rewrite (IH ltac:(assumption) _). reflexivity.
+  - (* PBinOp *) intros l o r [IHl _] [IHr _]. rule_start. rewrite (IHl ltac:(assumption) _), (IHr ltac:(assumption) _). reflexivity.
   - (* PBoolOp *) intros o vs IH. rule_start.
-    rewrite (mapo_rule _ _ _ _ (rule_list vs IH ltac:(assumption) (mkCtx m s j f))). reflexivity.
-  - (* PUnaryOp *) intros o v [IH _]. rule_start. rewrite (IH ltac:(assumption) (mkCtx m s j f)). reflexivity.
-  - (* PCompare *) intros l ops cs [IHl _] IH. rule_start. rewrite (IHl ltac:(assumption) (mkCtx m s j f)).
-    rewrite (mapo_rule _ _ _ _ (rule_list cs IH ltac:(assumption) (mkCtx m s j f))). reflexivity.
-  - (* PCall *) intros fn args kws [IHf _] IHa IHk. rule_start. rewrite (IHf ltac:(assumption) (mkCtx m s j f)).
-    rewrite (mapo_rule _ _ _ _ (rule_list args IHa ltac:(assumption) (mkCtx m s j f))).
-    rewrite (mapo_rule _ _ _ _ (rule_list kws IHk ltac:(assumption) (mkCtx m s j f))). reflexivity.
-  - (* PKeyword *) intros n v [IH _]. rule_start. rewrite (IH ltac:(assumption) (mkCtx m s j f)). reflexivity.
+    rewrite (mapo_rule _ _ _ _ (rule_list vs IH ltac:(assumption) _)). reflexivity.
+  - (* PUnaryOp *) intros o v [IH _]. rule_start. rewrite (IH ltac:(assumption) _). reflexivity.
+  - (* PCompare *) intros l ops cs [IHl _] IH. rule_start. rewrite (IHl ltac:(assumption) _).
+    rewrite (mapo_rule _ _ _ _ (rule_list cs IH ltac:(assumption) _)). reflexivity.
+  - (* PCall *) intros fn args kws [IHf _] IHa IHk. rule_start. rewrite (IHf ltac:(assumption) _).
+    rewrite (mapo_rule _ _ _ _ (rule_list args IHa ltac:(assumption) _)).
+    rewrite (mapo_rule _ _ _ _ (rule_list kws IHk ltac:(assumption) _)). reflexivity.
+  - (* PKeyword *) intros n v [IH _]. rule_start. rewrite (IH ltac:(assumption) _). reflexivity.
   - (* PSubscript *) intros v lit sl _ [IHs _]. rule_start.
     destruct (build (mkCtx NoParse false j f) v) as [lft|] eqn:Ev; [|reflexivity].
     rewrite (build_is_na (mkCtx NoParse false j f) v lft eq_refl ltac:(assumption) Ev).
     destruct m as [|l0]; cbn [pm].
-    + rewrite (IHs ltac:(assumption) (mkCtx NoParse true j f)). reflexivity.
+    + rewrite (IHs ltac:(assumption) _). reflexivity.
     + rewrite (IHs ltac:(assumption) (mkCtx (Parse (l0 || lit && is_name_or_attr_src v)) true j f)). reflexivity.
   - (* PSlice *) intros lo up st IHl IHu IHs. rule_start.
-    rewrite (rule_opt lo IHl ltac:(assumption) (mkCtx m s j f)), (rule_opt up IHu ltac:(assumption) (mkCtx m s j f)), (rule_opt st IHs ltac:(assumption) (mkCtx m s j f)).
+    rewrite (rule_opt lo IHl ltac:(assumption) _), (rule_opt up IHu ltac:(assumption) _), (rule_opt st IHs ltac:(assumption) _).
     destruct lo, up, st; reflexivity.
   - (* PTuple *) intros es IH. rule_start.
-    rewrite (mapo_rule _ _ _ _ (rule_list es IH ltac:(assumption) (mkCtx m false j f))). reflexivity.
-  - (* PList *) intros es IH. rule_start. rewrite (mapo_rule _ _ _ _ (rule_list es IH ltac:(assumption) (mkCtx m s j f))). reflexivity.
-  - (* PSet *) intros es IH. rule_start. rewrite (mapo_rule _ _ _ _ (rule_list es IH ltac:(assumption) (mkCtx m s j f))). reflexivity.
+    rewrite (mapo_rule _ _ _ _ (rule_list es IH ltac:(assumption) _)). reflexivity.
+  - (* PList *) intros es IH. rule_start. rewrite (mapo_rule _ _ _ _ (rule_list es IH ltac:(assumption) _)). reflexivity.
+  - (* PSet *) intros es IH. rule_start. rewrite (mapo_rule _ _ _ _ (rule_list es IH ltac:(assumption) _)). reflexivity.
   - (* PDict *) intros items IH. rule_start. rewrite mapo_map.
     match goal with |- match ?a with _ => _ end = match ?b with _ => _ end => replace a with b; [reflexivity|] end.
     apply mapo_ext. apply forallb_Forall in Hn. revert Hn. induction IH as [|x l [_ Hx] _ IHl]; intros Hn; [constructor|].
@@ -114,31 +114,31 @@ Proof.
     destruct x as [| | |rr raw parsed| | | | | | | | | | | | | | |k v| | | | | | | | | | | | | | |]; try reflexivity.
     + cbn [subst]. destruct (j && negb f); [reflexivity|]. destruct m as [|[|]]; try reflexivity. destruct parsed; reflexivity.
     + cbn in H1. split_andb. destruct Hx as [Hk Hv].
-      cbn [subst]. unfold npc. cbn [pm insub injoin infmt]. rewrite <- (RuleP_mk _ Hv ltac:(assumption) m s j f).
-      destruct k as [k|]; [|reflexivity]. simpl in Hk. rewrite <- (RuleP_mk _ Hk ltac:(assumption) m s j f). reflexivity.
+      cbn [subst]. unfold npc. cbn [pm insub injoin infmt]. rewrite <- (RuleP_mk _ Hv ltac:(assumption) m false j f).
+      destruct k as [k|]; [|reflexivity]. simpl in Hk. rewrite <- (RuleP_mk _ Hk ltac:(assumption) m false j f). reflexivity.
   - (* PDictItem *) intros k v Hk [Hv Hv']. split; [intros _ c; reflexivity|]. split; [|assumption].
     destruct k; simpl in *; [destruct Hk; assumption|exact I].
   - (* PIfExp *) intros b t o [IHb _] [IHt _] [IHo _]. rule_start.
-    rewrite (IHb ltac:(assumption) (mkCtx m s j f)), (IHt ltac:(assumption) (mkCtx m s j f)), (IHo ltac:(assumption) (mkCtx m s j f)). reflexivity.
-  - (* PLambda *) intros po pk vp ko vk body _ _ _ [IHb _]. rule_start. rewrite (IHb ltac:(assumption) (mkCtx m s j f)). reflexivity.
+    rewrite (IHb ltac:(assumption) _), (IHt ltac:(assumption) _), (IHo ltac:(assumption) _). reflexivity.
+  - (* PLambda *) intros po pk vp ko vk body _ _ _ [IHb _]. rule_start. rewrite (IHb ltac:(assumption) _). reflexivity.
   - (* PParam *) intros n d Hd. split; [intros _ c; reflexivity|]. destruct d; simpl in *; [destruct Hd; assumption|exact I].
-  - (* PNamedExpr *) intros t v [IHt _] [IHv _]. rule_start. rewrite (IHt ltac:(assumption) (mkCtx m s j f)), (IHv ltac:(assumption) (mkCtx m s j f)). reflexivity.
-  - (* PStarred *) intros v [IH _]. rule_start. rewrite (IH ltac:(assumption) (mkCtx m s j f)). reflexivity.
-  - (* PListComp *) intros e gens [IHe _] IH. rule_start. rewrite (IHe ltac:(assumption) (mkCtx m s j f)).
-    rewrite (mapo_rule _ _ _ _ (rule_list gens IH ltac:(assumption) (mkCtx m s j f))). reflexivity.
-  - (* PSetComp *) intros e gens [IHe _] IH. rule_start. rewrite (IHe ltac:(assumption) (mkCtx m s j f)).
-    rewrite (mapo_rule _ _ _ _ (rule_list gens IH ltac:(assumption) (mkCtx m s j f))). reflexivity.
-  - (* PGeneratorExp *) intros e gens [IHe _] IH. rule_start. rewrite (IHe ltac:(assumption) (mkCtx m s j f)).
-    rewrite (mapo_rule _ _ _ _ (rule_list gens IH ltac:(assumption) (mkCtx m s j f))). reflexivity.
-  - (* PDictComp *) intros k v gens [IHk _] [IHv _] IH. rule_start. rewrite (IHk ltac:(assumption) (mkCtx m s j f)), (IHv ltac:(assumption) (mkCtx m s j f)).
-    rewrite (mapo_rule _ _ _ _ (rule_list gens IH ltac:(assumption) (mkCtx m s j f))). reflexivity.
-  - (* PComprehension *) intros t it ifs a [IHt _] [IHi _] IH. rule_start. rewrite (IHt ltac:(assumption) (mkCtx m s j f)), (IHi ltac:(assumption) (mkCtx m s j f)).
-    rewrite (mapo_rule _ _ _ _ (rule_list ifs IH ltac:(assumption) (mkCtx m s j f))). reflexivity.
+  - (* PNamedExpr *) intros t v [IHt _] [IHv _]. rule_start. rewrite (IHt ltac:(assumption) _), (IHv ltac:(assumption) _). reflexivity.
+  - (* PStarred *) intros v [IH _]. rule_start. rewrite (IH ltac:(assumption) _). reflexivity.
+  - (* PListComp *) intros e gens [IHe _] IH. rule_start. rewrite (IHe ltac:(assumption) _).
+    rewrite (mapo_rule _ _ _ _ (rule_list gens IH ltac:(assumption) _)). reflexivity.
+  - (* PSetComp *) intros e gens [IHe _] IH. rule_start. rewrite (IHe ltac:(assumption) _).
+    rewrite (mapo_rule _ _ _ _ (rule_list gens IH ltac:(assumption) _)). reflexivity.
+  - (* PGeneratorExp *) intros e gens [IHe _] IH. rule_start. rewrite (IHe ltac:(assumption) _).
+    rewrite (mapo_rule _ _ _ _ (rule_list gens IH ltac:(assumption) _)). reflexivity.
+  - (* PDictComp *) intros k v gens [IHk _] [IHv _] IH. rule_start. rewrite (IHk ltac:(assumption) _), (IHv ltac:(assumption) _).
+    rewrite (mapo_rule _ _ _ _ (rule_list gens IH ltac:(assumption) _)). reflexivity.
+  - (* PComprehension *) intros t it ifs a [IHt _] [IHi _] IH. rule_start. rewrite (IHt ltac:(assumption) _), (IHi ltac:(assumption) _).
+    rewrite (mapo_rule _ _ _ _ (rule_list ifs IH ltac:(assumption) _)). reflexivity.
   - (* PJoinedStr *) intros vs IH. rule_start.
-    rewrite (mapo_rule _ _ _ _ (rule_list vs IH ltac:(assumption) (mkCtx m s true f))). reflexivity.
-  - (* PFormattedValue *) intros v conv spec [IH _] _. rule_start. rewrite (IH ltac:(assumption) (mkCtx m s j true)). reflexivity.
-  - (* PYield *) intros v IH. rule_start. rewrite (rule_opt v IH ltac:(assumption) (mkCtx m s j f)). destruct v; reflexivity.
-  - (* PYieldFrom *) intros v [IH _]. rule_start. rewrite (IH ltac:(assumption) (mkCtx m s j f)). reflexivity.
+    rewrite (mapo_rule _ _ _ _ (rule_list vs IH ltac:(assumption) _)). reflexivity.
+  - (* PFormattedValue *) intros v conv spec [IH _] _. rule_start. rewrite (IH ltac:(assumption) _). reflexivity.
+  - (* PYield *) intros v IH. rule_start. rewrite (rule_opt v IH ltac:(assumption) _). destruct v; reflexivity.
+  - (* PYieldFrom *) intros v [IH _]. rule_start. rewrite (IH ltac:(assumption) _). reflexivity.
   - (* PAwait *) intros v _. rule_start. reflexivity.
 Qed.
 
